@@ -264,7 +264,7 @@ def run_history(cg, lib, start, ops):
 
 
 # ---------------------------------------------------------------- python-side suspicion test (drives shrinking only)
-def py_inv(d, removed):
+def py_inv(d, removed, pins=True):
     nodes = {n: (t, o, set(fi)) for n, t, o, fi in d["nodes"]}
     fo = {n: set() for n in nodes}
     for n, (t, o, fi) in nodes.items():
@@ -279,7 +279,7 @@ def py_inv(d, removed):
             return False
         if t == "bb_output" and (len(fo[n]) > 1 or any(nodes[m][0] != "buf" for m in fo[n])):
             return False
-    for inst, _, ins, outs in d["bbs"]:
+    for inst, _, ins, outs in (d["bbs"] if pins else []):
         for ps, want in ((ins, "bb_input"), (outs, "bb_output")):
             for p in ps:
                 pn = f"{inst}.{p}"
